@@ -84,11 +84,34 @@ def gen_bad_request(rng, cfg, nwatch):
     kind = rng.choice(['invalid_json', 'unknown_command', 'unknown_watcher',
                        'missing_property', 'ill_typed_property', 'bad_option',
                        'bad_option', 'bad_option', 'bad_signal', 'duplicate',
-                       'singleton', 'owner'])
+                       'singleton', 'owner', 'nonobject_properties',
+                       'odd_waiting'])
     op = {'op': 'req', 'w': w, 'props': {}, 'waiting': rng.random() < 0.4,
           'place': 'now', 'defect': kind}
     p = op['props']
-    if kind == 'invalid_json':
+    if kind == 'nonobject_properties':
+        # the properties member itself is not an object
+        import json as _json
+        op['cmd'] = 'raw'
+        op['raw'] = _json.dumps({
+            'command': rng.choice(['stop', 'start', 'restart', 'reload',
+                                   'numwatchers', 'list', 'quit',
+                                   'reloadconfig']),
+            'properties': rng.choice([[], [1], 'x', 5, ['name'], True]),
+            'id': 'nop%d' % rng.randrange(10 ** 6)})
+    elif kind == 'odd_waiting':
+        # a valid request whose waiting flag is not a boolean: whatever the
+        # daemon makes of it, an error reply must mean that nothing happened
+        op['cmd'] = rng.choice(['stop', 'start', 'incr', 'decr', 'restart',
+                                'reload', 'rm', 'set'])
+        op['waiting'] = False
+        if op['cmd'] == 'set':
+            p['options'] = {'warmup_delay': 7.5}
+        if op['cmd'] in ('incr', 'decr'):
+            p['nb'] = 1
+        p['waiting'] = rng.choice(['maybe', 3, ['yes'], {'a': 1}, 'no!',
+                                   1.5, 'True '])
+    elif kind == 'invalid_json':
         op['cmd'] = 'raw'
         op['raw'] = rng.choice(['{"command": "stop", "properties": {"name": '
                                 '"w0"}', 'stop w0', '{command: stop}',
